@@ -55,6 +55,9 @@ func C11(shard, nshards int) {
 	}
 	cls := CaseName(i)
 	symBudget = 1
+	if Deep {
+		symBudget = 2
+	}
 	defs, docs := Case(i)
 	st := styleFor(docs, 1)
 	src := Print(defs, st)
@@ -84,6 +87,9 @@ func C16(shard, nshards int) {
 	}
 	cls := CaseName(i)
 	symBudget = 1
+	if Deep {
+		symBudget = 2
+	}
 	defs, docs := Case(i)
 	st := styleFor(docs, 1)
 	src := Print(defs, st)
@@ -112,6 +118,9 @@ func C17(shard, nshards int) {
 	}
 	cls := CaseName(i)
 	symBudget = 1
+	if Deep {
+		symBudget = 2
+	}
 	defs, docs := Case(i)
 	st := styleFor(docs, 1)
 	src := Print(defs, st)
